@@ -272,7 +272,7 @@ func genConfig(c *ctx) {
 			return []string{"0.0.0.0:67", "192.0.2.1", ":67", "%lo"}[c.rng.Intn(4)]
 		}
 		a := func() string {
-			if c.rng.Intn(3) == 0 {
+			if c.rng.Intn(4) == 0 {
 				return pool[c.rng.Intn(len(pool))]
 			}
 			return good()
@@ -297,7 +297,7 @@ func genConfig(c *ctx) {
 		default:
 			fmt.Fprintf(&sb, "  listen:\n    - %s\n", q(a()))
 		}
-		switch c.rng.Intn(10) {
+		switch c.rng.Intn(24) {
 		case 0: // plugins missing
 		case 1:
 			sb.WriteString("  plugins:\n")
@@ -311,7 +311,7 @@ func genConfig(c *ctx) {
 			sb.WriteString("  plugins:\n")
 			for i := 0; i <= c.rng.Intn(4); i++ {
 				it := "- dns: 1.1.1.1"
-				if c.rng.Intn(3) == 0 {
+				if c.rng.Intn(4) == 0 {
 					it = plugItem()
 				}
 				sb.WriteString("    " + it + "\n")
